@@ -300,7 +300,7 @@ def scheduler_cases(chk, rng, n):
         case = {"scheduler": "train_uts", "n_tasks": K, "budget": budget, "episode_lengths": [e.script[0][0] for e in envs]}
         chk.case(("uts", K, budget, i))
         chk.count("scheduler_cases")
-        ok, out = chk.impl_call("C11:train_uts:raised", case, train_uts, ts, train_st, total_timesteps=budget, episodes_per_task=1, seed=i,
+        ok, out = chk.impl_call("C11:train_uts:raised", case, train_uts, ts, train_st, total_timesteps=budget, episodes_per_task=int([1, 2, 3][i % 3]), seed=i,
                                 exploring_starts=0, progress_bar=False)
         if ok:
             total_env = sum(len(e.step_events()) for e in envs)
@@ -327,9 +327,10 @@ def scheduler_cases(chk, rng, n):
                         break
                     env.reset()
             return Res(step)
-        case2 = {"scheduler": "train_active_mt", "n_tasks": K, "budget": budget, "episode_lengths": [e.script[0][0] for e in envs2]}
+        interval = int([1, 2, 3, 4][i % 4])     # the budget may run out after some, but not all, episodes of a scheduling interval
+        case2 = {"scheduler": "train_active_mt", "n_tasks": K, "budget": budget, "episode_lengths": [e.script[0][0] for e in envs2], "scheduling_interval": interval}
         ok, out = chk.impl_call("C11:train_active_mt:raised", case2, train_active_mt, TaskSet2(), train_st2, rb, 1.0, task_selector="Round Robin",
-                                total_timesteps=budget, scheduling_interval=1, learning_starts=0, seed=i, progress_bar=False)
+                                total_timesteps=budget, scheduling_interval=interval, learning_starts=0, seed=i, progress_bar=False)
         if ok:
             _, per_task = out
             total_env = sum(len(e.step_events()) for e in envs2)
